@@ -28,19 +28,21 @@ def display_fmt(ty, spec, facts):
 
 H = 'all_ok(ops0)'
 ARM_HINTS = ('match ops0[n] { Op::Dash { pattern, phase } => { lemma_dash(st_open(s0), pattern@); }, '
-             'Op::TextDrawAdjusted { array } => { lemma_tj(array@); }, _ => {} }')
+             'Op::TextDrawAdjusted { array } => { lemma_tj(arr_of(f.st().recs.last().a[0]), array@); }, _ => {} }')
 
 SER_REWRITES = [
     # R7: the sink (a local Vec<u8>) is the reader-state model `Out`
     {'where': 'sig', 'rule': 'R7', 'find': 'Result<Vec<u8>>', 'replace': 'Result<Out>'},
+    # R2: `mut ops` parameter -> immutable parameter + `let mut ops` (the input stays nameable in the contract)
+    {'where': 'sig', 'rule': 'R2', 'find': 'mut ops: &[Op]', 'replace': 'ops_in: &[Op]'},
     {'rule': 'R2', 'find': 'use std::io::Write;', 'replace': ''},
     # R7 + R1: ghost bookkeeping (segmentation witnesses) declared next to the sink
     {'rule': 'R7', 'find': 'let mut data = Vec::new();',
-     'replace': 'let mut data = Out::new(); proof { lemma_literals(); } let ghost ops0 = ops@; let ghost mut n: int = 0; '
+     'replace': 'let mut ops = ops_in; let mut data = Out::new(); let ghost ops0 = ops@; let ghost mut n: int = 0; '
                 'let ghost mut cuts: Seq<int> = seq![0int]; let ghost mut lasts: Seq<Point> = seq![origin()];'},
-    {'rule': 'R1', 'find': 'let mut advance = 1;', 'replace': 'let mut advance = 1; let ghost s0 = f.st();'},
+    {'rule': 'R1', 'find': 'let mut advance = 1;', 'replace': 'let mut advance = 1; let ghost s0 = f.st(); proof { lemma_literals(); }'},
     {'rule': 'R1', 'find': 'ops = &ops[advance..];',
-     'replace': 'proof { let rec = f.st().recs.last(); let cnt = row_count(rec, lasts.last()); '
+     'replace': 'proof { lemma_tail(ops@, ops0, n, advance as int); let rec = f.st().recs.last(); let cnt = row_count(rec, lasts.last()); '
                 'assert(%s ==> advance == cnt); //@L window_advance\n '
                 'lemma_step(s0.recs, cuts, lasts, ops0, rec, cnt); '
                 'lasts = lasts.push(new_last_k(kw(rec.kw), rec.a, lasts.last())); '
@@ -68,8 +70,7 @@ SER_REWRITES = [
     {'rule': 'R7', 'regex': r'write!\(f, "\{(\w+)\}"\)', 'count': '*', 'replace': r'write!(f, "{}", \1)'},
     # R6: enumerate -> index loop
     {'rule': 'R6', 'find': 'for (i, val) in array.iter().enumerate() {',
-     'replace': 'for i in 0..array.len() { let val = &array[i]; '
-                'proof { assert(tj_toks(array@.take(i + 1)) =~= tj_toks(array@.take(i as int)).push(tj_tok(array@[i as int]))); }'},
+     'replace': 'for i in 0..array.len() { let val = &array[i];'},
     # R1: every `writeln!(..)?` completes one operator record: the per-arm check is injected right behind it
     {'rule': 'R1', 'regex': r'writeln!\(((?:[^()]|\((?:[^()]|\([^()]*\))*\))*)\)\?', 'count': '*',
      'replace': r'({ writeln!(\1)?; proof { ' + ARM_HINTS + ' assert(%s ==> arm_ok(s0, f.st(), lasts.last(), ops0, n)); //@L round_trip\n } })' % H},
@@ -78,7 +79,13 @@ SER_REWRITES = [
 ]
 
 INNER_ARGS_INV = [
-    '%s ==> (f.st().recs == s0.recs && f.st().pend =~= args@.take(it.index@ as int) && !f.st().bad && !f.st().glued && f.st().arr is None)' % H,
+    '%s ==> st_rest(s0)' % H, '%s ==> forall|j: int| 0 <= j < args@.len() ==> prim_ok(#[trigger] args@[j])' % H,
+    '%s ==> (f.st().recs == s0.recs && prefix_is(f.st().pend, args@, it.index@ as int) && !f.st().bad && !f.st().glued && f.st().arr is None)' % H,
+]
+INNER_TJ_INV = [
+    '%s ==> st_rest(s0)' % H, '%s ==> forall|j: int| 0 <= j < array@.len() ==> tja_ok(#[trigger] array@[j])' % H,
+    '%s ==> (f.st().recs == s0.recs && f.st().pend == s0.pend && !f.st().bad && (i == 0 ==> !f.st().glued) '
+    '&& f.st().arr is Some && tj_prefix_is(f.st().arr->Some_0, array@, i as int))' % H,
 ]
 
 UNIT = {
@@ -115,24 +122,21 @@ UNIT = {
      'rewrites': [{'rule': 'R1', 'regex': r'\A\s*\{', 'replace': '{ proof { lemma_literals(); }'}]},
 
   'serialize_ops': {'kind': 'fn', 'file': F, 'container': None, 'name': 'serialize_ops', 'props': ['C08'],
-     'attrs': ['#[verifier::loop_isolation(false)]'],
      'ensures': [
         # C08, first sentence: the stream reads back (operator table of units/ops) as exactly the sequence given
-        ('round_trip', 'all_ok(ops@) ==> (r matches Ok(d) && round_trip(d.st(), ops@))'),
-        ('accepts', 'all_ok(ops@) ==> r is Ok'),
+        ('round_trip', 'all_ok(ops_in@) ==> (r matches Ok(d) && round_trip(d.st(), ops_in@))'),
+        ('accepts', 'all_ok(ops_in@) ==> r is Ok'),
      ],
      'loops': {
         1: {'invariant': [
-               '0 <= n <= ops0.len()', 'ops@ =~= ops0.skip(n)',
+               'ops0 == ops_in@', '0 <= n <= ops0.len()', 'is_tail(ops@, ops0, n)',
                ('round_trip', '%s ==> st_rest(f.st())' % H),
                ('round_trip', '%s ==> (reads_as(f.st().recs, cuts, lasts, ops0) && cuts.last() == n)' % H),
                ('current_point', '%s ==> (current_point is Some ==> current_point == Some(lasts.last()))' % H)],
             'decreases': 'ops@.len()'},
         2: {'for_ghost': 'it', 'invariant': INNER_ARGS_INV},
         3: {'for_ghost': 'it', 'invariant': INNER_ARGS_INV},
-        4: {'invariant': [
-               '%s ==> (f.st().recs == s0.recs && f.st().pend == s0.pend && !f.st().bad && (i == 0 ==> !f.st().glued) '
-               '&& f.st().arr == Some(tj_toks(array@.take(i as int))))' % H]},
+        4: {'invariant': INNER_TJ_INV},
      },
      'rewrites': SER_REWRITES},
  },
